@@ -1,7 +1,6 @@
 SPECIFICATION Spec
-CONSTANTS MaxEv = 5  NoSchedOn = FALSE  OwnDefault = TRUE
+CONSTANTS MaxEv = 5  NoSchedOn = FALSE  OwnDefault = FALSE
   Zones <- ZonesC  Vers <- VersC  NF <- NFc  ZoneOf <- ZoneOfC
 CONSTRAINT Bound
 INVARIANT SameOrNone
-INVARIANT DefaultUntouched
 CHECK_DEADLOCK FALSE
